@@ -81,12 +81,12 @@ Lemma tie_get_n_best : forall votes n, (0 <=? n)%Z = true ->
 Proof.
   intros votes n Hn. apply Z.leb_le in Hn.
   unfold Gen.Core.get_n_best. cbv zeta. rewrite tie_sorted_votes_desc.
-  rewrite <- ?Z.ltb_antisym, <- ?Z.leb_antisym, ?negb_involutive.
+  rewrite ?Z.leb_antisym, ?negb_involutive.     (* every test on the length reads n <? len, possibly under negb *)
   destruct (Z.eq_dec n 0) as [->|N0].
   - (* no seats: the threshold is read at index -1 (the LAST item); whichever way the tie test goes the result is [] *)
     change (Z.to_nat 0) with 0%nat. rewrite gnb_no_seats.
     set (s := sort_desc Qle_bool votes). rewrite (py_len_lt_nat s 0 Hn). change (Z.to_nat 0) with 0%nat.
-    destruct (Nat.ltb 0 (length s)) eqn:L.
+    destruct (Nat.ltb 0 (length s)) eqn:L; cbn [negb].
     2: { apply Nat.ltb_ge in L. destruct s; [reflexivity | cbn [length] in L; lia]. }
     apply Nat.ltb_lt in L.
     change (0 - 1)%Z with (-1)%Z. rewrite py_index_last, (py_index_nonneg s 0) by lia. change (Z.to_nat 0) with 0%nat.
@@ -94,14 +94,14 @@ Proof.
     clearbody s. destruct s as [|[c0 v0] t]; [cbn [length] in L; lia|].
     cbn [nth_error snd].
     rewrite ?(py_eq_eqv v0 vl), ?(py_eq_eqv' vl v0).
-    destruct (eqv Qle_bool v0 vl) eqn:T.
+    destruct (eqv Qle_bool v0 vl) eqn:T; cbn [negb].
     + loop_tac vl. cbn [find_index snd]. rewrite T. cbn [option_map].
       change (Z.of_nat 0) with 0%Z. rewrite ?py_list_mul_single, ?map_const_range.
       change (0 - 0)%Z with 0%Z. reflexivity.
     + reflexivity.
   - unfold get_n_best. cbv zeta. set (s := sort_desc Qle_bool votes).
     rewrite (py_len_lt_nat s n Hn).
-    destruct (Nat.ltb (Z.to_nat n) (length s)) eqn:L.
+    destruct (Nat.ltb (Z.to_nat n) (length s)) eqn:L; cbn [negb].
     2: { f_equal. cands_tac. }
     apply Nat.ltb_lt in L.
     rewrite (py_index_nonneg s (n - 1)), (py_index_nonneg s n) by lia.
@@ -109,7 +109,7 @@ Proof.
     destruct (nth_error s (Z.to_nat n - 1)) as [[c1 thr]|] eqn:E1; [|apply nth_error_None in E1; lia].
     destruct (nth_error s (Z.to_nat n)) as [[c2 nxt]|] eqn:E2; [|apply nth_error_None in E2; lia].
     cbn [snd]. rewrite ?(py_eq_eqv nxt thr), ?(py_eq_eqv' thr nxt).
-    destruct (eqv Qle_bool nxt thr) eqn:T.
+    destruct (eqv Qle_bool nxt thr) eqn:T; cbn [negb].
     + (* tie across the cut *)
       loop_tac thr.
       rewrite (find_index_first_eq Qle_bool thr s) by (exists (c2, nxt); split; [eapply nth_error_In; exact E2 | exact T]).
